@@ -48,8 +48,9 @@ type LifeScenario struct {
 	CloseFromBg        bool   `json:"close_from_bg"`          // the Close of cause "close" is called by a background handler
 	CancelEarly        string `json:"cancel_early"`           // "" | before | during : the context given to ConnectContext is cancelled before the call / while the (context-unaware) dialer is at work
 	SilentMs           int    `json:"silent_ms"`
-	TimeoutMs          int    `json:"timeout_ms"` // Config.Timeout (0 = the scenario's default of 3 s): a legal, rarely tuned value
-	HoldMs             int    `json:"hold_ms"`    // the gated foreground handler keeps working this long after the cause (longer than Timeout, say)              // before the cause the server stays connected but silent for this long, never answering the client's PINGs (Timeout is set to a fifth of it)
+	PeerStalled        bool   `json:"peer_stalled"` // with slow_server: the peer never reads again (a write in flight returns only when the socket is closed)
+	TimeoutMs          int    `json:"timeout_ms"`   // Config.Timeout (0 = the scenario's default of 3 s): a legal, rarely tuned value
+	HoldMs             int    `json:"hold_ms"`      // the gated foreground handler keeps working this long after the cause (longer than Timeout, say)              // before the cause the server stays connected but silent for this long, never answering the client's PINGs (Timeout is set to a fifth of it)
 }
 
 type LifeResult struct {
@@ -509,7 +510,7 @@ func runLifeScenario(sc LifeScenario) LifeResult {
 		time.Sleep(time.Duration(sc.HoldMs) * time.Millisecond)
 	}
 	release()
-	if gw != nil { // let the slow server read again only after the cause
+	if gw != nil && !sc.PeerStalled { // let the slow server read again only after the cause
 		go func() {
 			for i := 0; i < 1<<15; i++ {
 				gw <- struct{}{}
